@@ -7,11 +7,13 @@
 #include <algorithm>
 #include <cstdio>
 #include <cstdlib>
+#include <csignal>
 #include <cstring>
 #include <map>
 #include <memory>
 #include <set>
 #include <sstream>
+#include <unistd.h>
 #include <string>
 #include <vector>
 
@@ -243,7 +245,18 @@ static void run_case(const std::string& id, const std::string& ca, const std::st
   fflush(stdout);
 }
 
+// a case that does not finish within the budget (a probing loop that never ends) kills the process with a marker
+// line; chk.run_cases restarts the driver on the remaining cases
+static char g_current[64];
+static void on_alarm(int) {
+  char buf[160];
+  int n = snprintf(buf, sizeof buf, "\nCRASH-HANG %s\n", g_current);
+  (void)!write(1, buf, n);
+  _exit(9);
+}
+
 int main() {
+  signal(SIGALRM, on_alarm);
   std::string line;
   char* lb = nullptr;
   size_t cap = 0;
@@ -256,6 +269,8 @@ int main() {
     std::vector<std::string> ops;
     while (is >> w) ops.push_back(w);
     g_hash_kind = hk;
+    snprintf(g_current, sizeof g_current, "%s", id.c_str());
+    alarm(getenv("C18_CASE_SECONDS") ? atoi(getenv("C18_CASE_SECONDS")) : 10);
     switch (ty) {
       case 0: run_case<T0>(id, ca, cb, ops); break;
       case 1: run_case<T1>(id, ca, cb, ops); break;
